@@ -329,3 +329,92 @@ Proof.
     pose proof (edist_le_l1 Pb (R2 qb)) as Lb. cbn [R2 fst snd] in Lb.
     rewrite (Rabs_minus_sym (fst Pb)), (Rabs_minus_sym (snd Pb)) in Lb. lra.
 Qed.
+
+(* two points in adjacent segments: the special case j = i + 1 *)
+Corollary global_lipschitz_ieee_adjacent (path : list Pos) i a b p0 p1 p2 d0 d1 d2 :
+  Forall (fun p => coord_le p 20) path -> segs_ok path -> (length path <= 2 ^ 50)%nat ->
+  poly_len (map R2 path) <= pw 1000 ->
+  nth_error path i = Some p0 -> nth_error path (S i) = Some p1 -> nth_error path (S (S i)) = Some p2 ->
+  nth_error (natural path D.zero) i = Some d0 -> nth_error (natural path D.zero) (S i) = Some d1 ->
+  nth_error (natural path D.zero) (S (S i)) = Some d2 ->
+  interp_hyps p0 p1 d0 d1 a -> interp_hyps p1 p2 d1 d2 b ->
+  let G := (1 + delta19) * (B2R b - B2R a) + 2 * eta19 * B2R d2 in
+  exists qa qb,
+    interpolate_vertices path (natural path D.zero) (S i) a = Done qa /\
+    interpolate_vertices path (natural path D.zero) (S (S i)) b = Done qb /\
+    Rabs (B2R (px qa) - B2R (px qb)) <= G + E19 (B2R (px p0)) (B2R (px p1)) + E19 (B2R (px p1)) (B2R (px p2)) /\
+    Rabs (B2R (py qa) - B2R (py qb)) <= G + E19 (B2R (py p0)) (B2R (py p1)) + E19 (B2R (py p1)) (B2R (py p2)) /\
+    edist (R2 qa) (R2 qb) <= G + (E19 (B2R (px p0)) (B2R (px p1)) + E19 (B2R (py p0)) (B2R (py p1)))
+                               + (E19 (B2R (px p1)) (B2R (px p2)) + E19 (B2R (py p1)) (B2R (py p2))).
+Proof.
+  intros Hc Hs Hn Ht H0 H1 H2 L0 L1 L2 Ha Hb G.
+  destruct (global_lipschitz_ieee path i (S i) a b p0 p1 d0 d1 p1 p2 d1 d2 Hc Hs Hn Ht ltac:(lia)
+              H0 H1 L0 L1 H1 H2 L1 L2 Ha Hb) as (qa & qb & Hqa & Hqb & Bx & By & Be).
+  exists qa, qb. split; [exact Hqa|]. split; [exact Hqb|].
+  assert (EG : (1 + delta19) * Rabs (B2R b - B2R a) + INR (S i - i + 1) * eta19 * B2R d2 = G).
+  { unfold G. replace (S i - i + 1)%nat with 2%nat by lia. change (INR 2) with (1 + 1).
+    destruct Ha as (_ & _ & _ & _ & _ & _ & _ & _ & (_ & Ha1) & _).
+    destruct Hb as (_ & _ & _ & _ & _ & _ & _ & _ & (Hb0 & _) & _).
+    rewrite Rabs_pos_eq by lra. ring. }
+  rewrite EG in Bx, By, Be. split; [exact Bx|]. split; [exact By|exact Be].
+Qed.
+
+(* ---------- the example polyline (0,0) (3,4) (8,16) ---------- *)
+From RM Require Import Proofs.EncFloat Proofs.PositionExact Proofs.AdjustIEEEEx.
+
+(* distance 2 on the first segment and distance 9 on the second one, lengths
+   as calculate_length computes them: the hypotheses hold and the two computed
+   positions are at most |9 - 2| + 1e-5 apart *)
+Example ex_global_lipschitz :
+  exists qa qb,
+    interpolate_vertices ex_path (natural ex_path D.zero) 1 (D.of_Z 2) = Done qa /\
+    interpolate_vertices ex_path (natural ex_path D.zero) 2 (D.of_Z 9) = Done qb /\
+    edist (R2 qa) (R2 qb) <= 7 + 1 / 100000.
+Proof.
+  destruct ex_path_hyps as (Hc & Hs & Hn & Ht).
+  destruct ex_R2 as (E1 & E2). pose proof ex_R2_0 as E0.
+  assert (Hcum : cumlen (map R2 ex_path) = [0; 5; 18]).
+  { unfold ex_path. cbn [map]. rewrite E0, E1, E2. exact (proj1 cumlen_example). }
+  assert (Hl : exists l0 l1 l2, natural ex_path D.zero = [l0; l1; l2]).
+  { pose proof ex_lens_are_natural as N.
+    destruct (natural ex_path D.zero) as [|x0 [|x1 [|x2 [|x3 r]]]]; try discriminate N.
+    exists x0, x1, x2. reflexivity. }
+  destruct Hl as (l0 & l1 & l2 & Hl).
+  pose proof (natural_lengths_error ex_path Hc Hs Hn Ht) as Hok.
+  change (length ex_path) with 3%nat in Hok.
+  assert (A3 : alpha 3 <= 1.8 / 10000000).
+  { unfold alpha, u32, u64. change (INR 3) with (1 + 1 + 1). lra. }
+  destruct (lens_ok_nth _ _ _ 0%nat l0 0 Hok ltac:(rewrite Hl; reflexivity) ltac:(rewrite Hcum; reflexivity)) as (F0 & (x0 & X0 & _)).
+  destruct (lens_ok_nth _ _ _ 1%nat l1 5 Hok ltac:(rewrite Hl; reflexivity) ltac:(rewrite Hcum; reflexivity)) as (F1 & (x1 & X1 & B1)).
+  destruct (lens_ok_nth _ _ _ 2%nat l2 18 Hok ltac:(rewrite Hl; reflexivity) ltac:(rewrite Hcum; reflexivity)) as (F2 & (x2 & X2 & B2)).
+  apply Rabs_le_inv in B1. apply Rabs_le_inv in B2.
+  assert (R0 : B2R l0 = 0) by (rewrite X0; ring).
+  assert (R1 : 5 - 1 / 1000000 <= B2R l1 <= 5 + 1 / 1000000) by (rewrite X1; nra).
+  assert (R2' : 18 - 4 / 1000000 <= B2R l2 <= 18 + 4 / 1000000) by (rewrite X2; nra).
+  destruct (D_ofZ 2 ltac:(lia)) as (Fa & Ra). destruct (D_ofZ 9 ltac:(lia)) as (Fb & Rb).
+  assert (P51 : pw (-51) <= 1) by (apply Rle_trans with (pw 0); [apply bpow_le; lia|cbn; lra]).
+  assert (Ha : interp_hyps ex_p0 ex_p1 l0 l1 (D.of_Z 2)).
+  { unfold interp_hyps. cbn [ex_p0 ex_p1 px py]. repeat (split; [apply bnd32_ofZ; lia|]).
+    split; [exact F0|]. split; [exact F1|]. split; [exact Fa|]. rewrite R0, Ra.
+    split; [lra|]. split; [lra|]. apply guard_false_of_gap; [exact F0|exact F1|lra|lra]. }
+  assert (Hb : interp_hyps ex_p1 ex_p2 l1 l2 (D.of_Z 9)).
+  { unfold interp_hyps. cbn [ex_p1 ex_p2 px py]. repeat (split; [apply bnd32_ofZ; lia|]).
+    split; [exact F1|]. split; [exact F2|]. split; [exact Fb|]. rewrite Rb.
+    split; [lra|]. split; [lra|]. apply guard_false_of_gap; [exact F1|exact F2|lra|lra]. }
+  destruct (global_lipschitz_ieee_adjacent ex_path 0 (D.of_Z 2) (D.of_Z 9) ex_p0 ex_p1 ex_p2 l0 l1 l2 Hc Hs Hn Ht
+              eq_refl eq_refl eq_refl ltac:(rewrite Hl; reflexivity) ltac:(rewrite Hl; reflexivity)
+              ltac:(rewrite Hl; reflexivity) Ha Hb) as (qa & qb & Hqa & Hqb & _ & _ & Be).
+  exists qa, qb. split; [exact Hqa|]. split; [exact Hqb|].
+  eapply Rle_trans; [exact Be|]. rewrite Ra, Rb.
+  unfold ex_p0, ex_p1, ex_p2. cbn [px py].
+  rewrite (proj2 (S_ofZ 0 ltac:(lia))), (proj2 (S_ofZ 3 ltac:(lia))), (proj2 (S_ofZ 4 ltac:(lia))),
+          (proj2 (S_ofZ 8 ltac:(lia))), (proj2 (S_ofZ 16 ltac:(lia))).
+  assert (P : pw (-125) <= / 100000000).
+  { apply Rle_trans with (pw (-30)); [apply bpow_le; lia|cbn; lra]. }
+  unfold E19. replace (3 - 0) with 3 by ring. replace (4 - 0) with 4 by ring.
+  replace (8 - 3) with 5 by ring. replace (16 - 4) with 12 by ring.
+  rewrite Rabs_R0, !(Rabs_pos_eq 3), !(Rabs_pos_eq 4), !(Rabs_pos_eq 8), !(Rabs_pos_eq 16),
+          (Rabs_pos_eq 5), (Rabs_pos_eq 12) by lra.
+  rewrite !Rmax_right by lra.
+  unfold delta19, eta19, u32, u64. lra.
+Qed.
